@@ -99,6 +99,7 @@ pub fn run(op: &str, input: &Value) -> Value {
         "mnemonic.parse" => mnemonic_parse(input),
         "mnemonic.seed" => mnemonic_seed(input),
         "mnemonic.random" => mnemonic_random(input),
+        "mnemonic.sweep" => mnemonic_sweep(input),
         "path.parse" => path_parse(input),
         "path.for_index" => path_for_index(input),
         "hdk.derive" => hdk_derive(input),
@@ -148,6 +149,54 @@ fn mnemonic_seed(input: &Value) -> R {
         Ok(m) => ok(json!({ "seed": hx(*m.seed(pass)) })),
         Err(e) => err(e),
     })
+}
+
+/// Run-length directive: `count` phrases "abandon x 11 about" whose word at position `pos` (1-based) is replaced
+/// by a pseudo-random lower-case token of 3..8 letters (splitmix64 from `seed`).  Reports which tokens made the
+/// phrase parse.  (A compact description of a large regular workload, like the bytes-spec "rep".)
+fn mnemonic_sweep(input: &Value) -> R {
+    let count = input.get("count").and_then(Value::as_u64).ok_or("count")?;
+    let seed = input.get("seed").and_then(Value::as_u64).ok_or("seed")?;
+    let pos = input.get("pos").and_then(Value::as_u64).ok_or("pos")? as usize;
+    // the starting state is a full 64-bit mix of the seed, so that the streams of different seeds do not overlap
+    let mut state = {
+        let mut z = seed.wrapping_add(0x1234_5678_9ABC_DEF1).wrapping_mul(0x9E37_79B9_7F4A_7C15);
+        z = (z ^ (z >> 30)).wrapping_mul(0xBF58_476D_1CE4_E5B9);
+        z = (z ^ (z >> 27)).wrapping_mul(0x94D0_49BB_1331_11EB);
+        z ^ (z >> 31)
+    };
+    let mut next = move || {
+        state = state.wrapping_add(0x9E37_79B9_7F4A_7C15);
+        let mut z = state;
+        z = (z ^ (z >> 30)).wrapping_mul(0xBF58_476D_1CE4_E5B9);
+        z = (z ^ (z >> 27)).wrapping_mul(0x94D0_49BB_1331_11EB);
+        z ^ (z >> 31)
+    };
+    let mut accepted = std::collections::BTreeSet::new();
+    let mut words = vec!["abandon"; 12];
+    words[11] = "about";
+    for _ in 0..count {
+        let mut r = next();
+        let len = 3 + (r % 6) as usize;
+        r /= 6;
+        let mut token = String::with_capacity(len);
+        for _ in 0..len {
+            token.push((b'a' + (r % 26) as u8) as char);
+            r /= 26;
+        }
+        let mut phrase = String::new();
+        for (i, w) in words.iter().enumerate() {
+            if i > 0 {
+                phrase.push(' ');
+            }
+            phrase.push_str(if i + 1 == pos { &token } else { w });
+        }
+        // distinct tokens only (genuine list words recur many times in a long sweep)
+        if accepted.len() < 2000 && Mnemonic::from_phrase(&phrase).is_ok() {
+            accepted.insert(token);
+        }
+    }
+    Ok(ok(json!({ "tried": count, "accepted": accepted.into_iter().collect::<Vec<_>>() })))
 }
 
 fn mnemonic_random(input: &Value) -> R {
